@@ -67,7 +67,7 @@ FreeCtx(c) ==
   /\ ctx' = [ctx EXCEPT ![c] = "freed"]
   /\ obj' = [o \in 1..NO |-> IF obj[o].c = c THEN NoObj ELSE obj[o]]          \* the heap goes with the context
   /\ glob' = [glob EXCEPT ![c] = Prim("undef", "")]
-  /\ run' = [run EXCEPT ![c] = [ph |-> "idle", resp |-> Prim("undef", "")]]
+  /\ run' = [run EXCEPT ![c] = [ph |-> "idle", resp |-> Prim("undef", ""), pay |-> "none"]]
   /\ Log([op |-> "freectx", c |-> c])
   /\ UNCHANGED val                                                             \* handles survive: survivors
   /\ exposed' = [o \in 1..NO |-> IF obj[o].c = c THEN FALSE ELSE exposed[o]]
@@ -176,12 +176,13 @@ HostRoots(c) == {val[h].v.o : h \in {x \in 1..NV : val[x].st = "live" /\ val[x].
 Kids(S) == S \cup UNION {{obj[o].vs[p].o : p \in {q \in 1..Len(obj[o].vs) : IsObjK(obj[o].vs[q].k)}} : o \in S}
 HostReach(c) == Kids(Kids(HostRoots(c)))
 Expose(c) == exposed' = [o \in 1..NO |-> exposed[o] \/ (obj[o].t # "none" /\ obj[o].c = c /\ o \notin HostReach(c))]
+AgePayload(c) == run' = [run EXCEPT ![c].pay = IF @ = "held" THEN "held-gc" ELSE @]     \* ghost: a collection ran while the payload was held
 Collect(c) ==
-  /\ Can("gc") /\ Live(c) /\ Log([op |-> "collect", c |-> c]) /\ Expose(c)
-  /\ UNCHANGED <<ctx, val, obj, glob, run>>
+  /\ Can("gc") /\ Live(c) /\ Log([op |-> "collect", c |-> c]) /\ Expose(c) /\ AgePayload(c)
+  /\ UNCHANGED <<ctx, val, obj, glob>>
 Churn(c) ==                   \* collect, then allocate and release: recycles whatever slot was freed
-  /\ Can("gc") /\ Live(c) /\ Log([op |-> "churn", c |-> c]) /\ Expose(c)
-  /\ UNCHANGED <<ctx, val, obj, glob, run>>
+  /\ Can("gc") /\ Live(c) /\ Log([op |-> "churn", c |-> c]) /\ Expose(c) /\ AgePayload(c)
+  /\ UNCHANGED <<ctx, val, obj, glob>>
 \* ------------------------------------------------------------------ globals and scripts
 SetGlobal(c, h) ==
   /\ Can("script") /\ Live(c) /\ Mine(h, c)
@@ -195,35 +196,48 @@ ReadGlobalByScript(c) ==      \* prepare + run `typeof g === "undefined" ? ... :
 \* ------------------------------------------------------------------ orders: submit, release, collect, resume
 StartOrder(c) ==              \* prepare + run a program that issues one order and completes with what it got
   /\ Can("order") /\ Live(c) /\ run[c].ph = "idle"
-  /\ run' = [run EXCEPT ![c] = [ph |-> "suspended", resp |-> Prim("undef", "")]]
+  /\ run' = [run EXCEPT ![c] = [ph |-> "suspended", resp |-> Prim("undef", ""), pay |-> "none"]]
   /\ Log([op |-> "order-start", c |-> c, exp |-> "suspended"])
   /\ UNCHANGED <<ctx, val, obj, glob, exposed>>
 Fulfil(c, h) ==               \* h = 0: NULL value (undefined)
   /\ Can("order") /\ Live(c) /\ run[c].ph = "suspended"
   /\ (h = 0 \/ (Mine(h, c) /\ val[h].v.k # "fn"))
-  /\ run' = [run EXCEPT ![c] = [ph |-> "answered", resp |-> IF h = 0 THEN Prim("undef", "") ELSE val[h].v]]
+  /\ run' = [run EXCEPT ![c] = [ph |-> "answered", resp |-> IF h = 0 THEN Prim("undef", "") ELSE val[h].v, pay |-> run[c].pay]]
   /\ Log([op |-> "fulfil", c |-> c, h |-> h, exp |-> "ok"])
   /\ UNCHANGED <<ctx, val, obj, glob, exposed>>
 FulfilError(c) ==
   /\ Can("order") /\ Live(c) /\ run[c].ph = "suspended"
-  /\ run' = [run EXCEPT ![c] = [ph |-> "answered", resp |-> Prim("str", "caught")]]
+  /\ run' = [run EXCEPT ![c] = [ph |-> "answered", resp |-> Prim("str", "caught"), pay |-> run[c].pay]]
   /\ Log([op |-> "fulfil-error", c |-> c, exp |-> "ok"])
   /\ UNCHANGED <<ctx, val, obj, glob, exposed>>
 Resume(c) ==                  \* run to completion: the completion value is the response as SUBMITTED (contents at resume time)
   /\ Can("order") /\ Live(c) /\ run[c].ph = "answered"
-  /\ run' = [run EXCEPT ![c] = [ph |-> "idle", resp |-> Prim("undef", "")]]
+  /\ run' = [run EXCEPT ![c] = [ph |-> "idle", resp |-> Prim("undef", ""), pay |-> "none"]]
   /\ Log([op |-> "resume", c |-> c, exp |-> "tree", tree |-> Tree(run[c].resp, 2)])
   /\ UNCHANGED <<ctx, val, obj, glob, exposed>>
 \* ------------------------------------------------------------------ native callbacks that re-enter the API
+NativeVariants == {"new-number", "new-object", "dup-arg", "null", "error", "reenter-get", "reenter-call", "return-arg", "return-this"}
+\* an order created by a native callback (tsrun_create_pending_order): the callback builds the payload, releases its own
+\* handle and returns the marker; the payload belongs to the context while the order is pending and the host reads it
+\* from the step result - also after collections
+NativeOrder(c) ==
+  /\ Can("native") /\ Live(c) /\ run[c].ph = "idle"
+  /\ run' = [run EXCEPT ![c] = [ph |-> "suspended", resp |-> Prim("undef", ""), pay |-> "held"]]
+  /\ Log([op |-> "native-order", c |-> c, exp |-> "suspended"])
+  /\ UNCHANGED <<ctx, val, obj, glob, exposed>>
+ReadPayload(c) ==
+  /\ Can("native") /\ Live(c) /\ run[c].pay # "none" /\ run[c].ph \in {"suspended", "answered"}
+  /\ Log([op |-> "read-payload", c |-> c, exp |-> "tree"])
+  /\ UNCHANGED <<ctx, val, obj, glob, run, exposed>>
 CallNative(c, variant) ==     \* the script calls a host function with (number, object); the callback uses the API and returns
   /\ Can("native") /\ Live(c) /\ run[c].ph = "idle"
-  /\ variant \in {"new-number", "new-object", "dup-arg", "null", "error", "reenter-get", "reenter-call"}
+  /\ variant \in NativeVariants
   /\ Log([op |-> "native", c |-> c, variant |-> variant, exp |-> "by-variant"])
   /\ UNCHANGED <<ctx, val, obj, glob, run, exposed>>
 
 Init ==
   /\ ctx = [c \in 1..NC |-> "none"] /\ val = [h \in 1..NV |-> NoVal] /\ obj = [o \in 1..NO |-> NoObj]
-  /\ glob = [c \in 1..NC |-> Prim("undef", "")] /\ run = [c \in 1..NC |-> [ph |-> "idle", resp |-> Prim("undef", "")]]
+  /\ glob = [c \in 1..NC |-> Prim("undef", "")] /\ run = [c \in 1..NC |-> [ph |-> "idle", resp |-> Prim("undef", ""), pay |-> "none"]]
   /\ exposed = [o \in 1..NO |-> FALSE] /\ hist = <<>> /\ len = 0
 Next ==
   \/ \E c \in 1..NC : NewCtx(c) \/ FreeCtx(c) \/ Collect(c) \/ Churn(c) \/ ReadGlobalByScript(c) \/ StartOrder(c) \/ FulfilError(c) \/ Resume(c)
@@ -240,7 +254,8 @@ Next ==
   \/ \E c \in 1..NC, ha \in 1..NV, h2 \in 1..NV, i \in 0..2 : ArrayGet(c, ha, i, h2)
   \/ \E c \in 1..NC, h \in 1..NV : Stringify(c, h) \/ Keys(c, h) \/ SetGlobal(c, h)
   \/ \E c \in 1..NC, h \in 0..NV : Fulfil(c, h)
-  \/ \E c \in 1..NC, v \in {"new-number", "new-object", "dup-arg", "null", "error", "reenter-get", "reenter-call"} : CallNative(c, v)
+  \/ \E c \in 1..NC, v \in NativeVariants : CallNative(c, v)
+  \/ \E c \in 1..NC : NativeOrder(c) \/ ReadPayload(c)
 Spec == Init /\ [][Next]_vars
 
 \* ------------------------------------------------------------------ invariants of the design
